@@ -137,12 +137,12 @@ PROPS = {
     "C10": {
         "title": "Write failures are fail-stop; bad requests write nothing; deadlines are applied",
         "level": "fault_enumeration",
-        "rule": "rapid-generated write program (all write APIs, invalid requests at any position, SetWriteDeadline / WriteControl deadlines from {zero, distinct future instants}); a fault-free run counts the write-side transport operations N (SetWriteDeadline, Write) and checks: invalid requests return an error, add no byte and leave the connection usable (independent decoder + one-to-one match), every transport Write is preceded within the same API call by a SetWriteDeadline carrying the deadline in force (WriteControl: its argument). Then for EVERY k < N and each fault kind {error, timeout, short write + error} the program is re-run with the fault at operation k: accepted bytes = valid frames + at most one truncated frame (and, for the server role, a prefix of the fault-free stream), nothing is handed to the transport afterwards, the faulted call and every later message-level call return non-nil. Non-trivial = (case,k,kind) with a multi-frame message in the program or the fault on a deadline call; or an invalid request between two valid messages.",
+        "rule": "rapid-generated write program (all write APIs, invalid requests at any position, SetWriteDeadline / WriteControl deadlines from {zero, distinct future instants}); a fault-free run counts the write-side transport operations N (SetWriteDeadline, Write) and checks: invalid requests return an error, add no byte and leave the connection usable (independent decoder + one-to-one match), every transport Write is preceded within the same API call by a SetWriteDeadline carrying the deadline in force (WriteControl: its argument). Then for EVERY k < N and each fault kind {error, timeout, short write + error} the program is re-run with the fault at operation k: accepted bytes = valid frames + at most one truncated frame (and, for the server role, a prefix of the fault-free stream), nothing is handed to the transport afterwards, the faulted call and every later message-level call return non-nil. Non-trivial = (case,k,kind) with a multi-frame message in the program or the fault on a deadline call; or an invalid request between two valid messages. part owned-schedule-fault (testing/synctest): the C11 actors (writer program, WriteControl callers, reader) under an owned schedule in which one pending transport write is made to FAIL while other callers are queued on the write lock; oracle: no write reaches the transport after the failed one, calls started afterwards fail, a control frame is on the wire iff its call returned nil.",
         "assumptions": TRUST + ["fault kinds are those named in the statement; partial writes accept half of the buffer"],
         "level_text": "Every write-side transport operation of each generated program is failed in turn with every fault kind (exhaustive per program); programs are sampled.",
         "level_note": "The scripted transport records what is offered to Write after a failure, so 'nothing more is ever written' is observed directly.",
         "technique": "fault-injection enumeration (every transport operation x every fault kind) over rapid-generated write programs",
-        "legs": [leg("^TestC10$", 1000, 50000, qshards=8)],
+        "legs": [leg("^TestC10$", 1000, 50000, qshards=8), raceleg("^TestC10Owned$", 400, 20000)],
     },
     "C20": {
         "title": "Pooled write buffers are held only while writing and never touched after release",
